@@ -150,7 +150,7 @@ func (w *world) snapData() []byte {
 		}
 	}
 	// at most 24 chunk files per snapshot (each is a real file on a tmpfs)
-	if lim := 24*w.cfg.Chunk - 1; uint64(n) > lim {
+	if lim := 24*w.effChunk() - 1; uint64(n) > lim {
 		n = int(lim)
 	}
 	return w.fillBytes(n)
@@ -167,7 +167,11 @@ func (w *world) genMutation(si int, noSnap bool) *mutation {
 	hs := ref.hs()
 	first, last, snapIdx := ref.first(), ref.last(), ref.snapIndex()
 	_ = first
-	kind := tp.Weighted([]int{8, 3, 5, w.cfg.WOverwrite, w.cfg.WCompact, w.cfg.WInstall, 1, w.cfg.WReplace, 1})
+	wInstall := w.cfg.WInstall
+	if w.cfg.Diverged && last > hs.Commit {
+		wInstall += 2 // an uncommitted suffix is what a conflicting leader snapshot must drop
+	}
+	kind := tp.Weighted([]int{8, 3, 5, w.cfg.WOverwrite, w.cfg.WCompact, wInstall, 1, w.cfg.WReplace, 1})
 	if noSnap && (kind == 4 || kind == 5 || kind == 7) {
 		kind = 0
 	}
@@ -280,7 +284,9 @@ func (w *world) genMutation(si int, noSnap bool) *mutation {
 		m.desc = fmt.Sprintf("Save compaction snapshot {i%d t%d %s data=%s}", i, t, csString(sn.Metadata.ConfState), dataSig(sn.Data))
 		return m
 	case 5: // snapshot install from a leader
-		diverged := w.cfg.Diverged && last > hs.Commit && last >= first && tp.Intn(2) == 1
+		// over a longer diverged log whenever the run allows it and the log has an
+		// uncommitted suffix (three times in four)
+		diverged := w.cfg.Diverged && last > hs.Commit && last >= first && tp.Intn(4) != 0
 		var i, t uint64
 		if diverged {
 			lo := max(hs.Commit+1, first)
@@ -307,6 +313,11 @@ func (w *world) genMutation(si int, noSnap bool) *mutation {
 		m.st.HardState = &h
 		if diverged {
 			m.tags = append(m.tags, "install_diverged")
+			if i < last && len(m.st.Entries) == 0 {
+				// entries of the diverged log lie above the snapshot and nothing in
+				// this save overwrites them: the storage itself must drop them
+				m.tags = append(m.tags, "install_diverged_stale_suffix")
+			}
 		}
 		m.tagSnap(w, sn)
 		m.desc = fmt.Sprintf("Save install snapshot {i%d t%d %s data=%s} diverged=%v ents=%s hs=%s", i, t, csString(sn.Metadata.ConfState), dataSig(sn.Data), diverged, entsString(m.st.Entries), hsString(&h))
@@ -354,7 +365,7 @@ func (m *mutation) tagSnap(w *world, sn raftpb.Snapshot) {
 	switch {
 	case len(sn.Data) == 0:
 		m.tags = append(m.tags, "snapshot_empty_payload")
-	case uint64(len(sn.Data)) > w.cfg.Chunk:
+	case uint64(len(sn.Data)) > w.effChunk():
 		m.tags = append(m.tags, "snapshot_multi_chunk")
 	}
 }
